@@ -1104,6 +1104,11 @@ func checkWebModifiersAgreeWithThePage(c *Ctx, p *Prog, rule string) {
 			}
 			m, isK := constInt(bo.Y)
 			if !isK {
+				// the modifier comes from a constant table walked by the loop that also walks the
+				// arguments: table[j] is ORed in under args[K+j].Bool()
+				if typeName(bo.Type()) == "tcell.ModMask" {
+					webModTable(p, d, bo, got, &bad)
+				}
 				continue
 			}
 			isMod := false
@@ -1323,4 +1328,190 @@ func returnedConstBool(r *ssa.Return, i int) (bool, bool) {
 		}
 		b = b.Preds[0]
 	}
+}
+
+
+// webModTable: `mod |= table[j]` under `args[K+j].Bool()` with table a package-level array or slice that
+// nothing writes: records position K+j -> table[j] for every row.
+func webModTable(p *Prog, d deepInstr, bo *ssa.BinOp, got map[int64]int64, bad *string) {
+	var g *ssa.Global
+	var idx ssa.Value
+	var fromGlobal func(v ssa.Value, depth int) *ssa.Global
+	fromGlobal = func(v ssa.Value, depth int) *ssa.Global {
+		if depth > 4 {
+			return nil
+		}
+		switch x := v.(type) {
+		case *ssa.Global:
+			return x
+		case *ssa.UnOp:
+			if x.Op == token.MUL {
+				return fromGlobal(x.X, depth+1)
+			}
+		case *ssa.Slice:
+			return fromGlobal(x.X, depth+1)
+		}
+		return nil
+	}
+	switch y := stripConv(bo.Y).(type) {
+	case *ssa.Index:
+		g, idx = fromGlobal(y.X, 0), y.Index
+	case *ssa.UnOp:
+		if ia, ok := y.X.(*ssa.IndexAddr); ok && y.Op == token.MUL {
+			g, idx = fromGlobal(ia.X, 0), ia.Index
+		}
+	}
+	if g == nil || idx == nil {
+		return
+	}
+	ce := &constEval{pk: p.pkg(""), globals: map[*ssa.Global]*cv{}}
+	tab := ce.global(p, g)
+	if tab == nil || tab.kind != cvAgg {
+		return
+	}
+	// the guard: args[K+idx].Bool() or args[idx+K].Bool() or args[idx].Bool()
+	for _, gd := range rawGuardsAt(bo.Block()) {
+		if !gd.Positive {
+			continue
+		}
+		call, isCall := stripConv(d.bindVal(gd.Cond)).(*ssa.Call)
+		if !isCall || !strings.HasSuffix(calleeName(&call.Call), ".Bool") || len(call.Call.Args) < 1 {
+			continue
+		}
+		u, isU := call.Call.Args[0].(*ssa.UnOp)
+		if !isU || u.Op != token.MUL {
+			continue
+		}
+		ia, isIA := u.X.(*ssa.IndexAddr)
+		if !isIA {
+			continue
+		}
+		base, okBase := int64(0), false
+		if ia.Index == idx {
+			okBase = true
+		} else if add, isAdd := ia.Index.(*ssa.BinOp); isAdd && add.Op == token.ADD {
+			if k, isK := constInt(add.X); isK && add.Y == idx {
+				base, okBase = k, true
+			}
+			if k, isK := constInt(add.Y); isK && add.X == idx {
+				base, okBase = k, true
+			}
+		}
+		if !okBase {
+			continue
+		}
+		for j, e := range tab.elems {
+			if e == nil || e.kind != cvInt {
+				continue
+			}
+			pos := base + int64(j)
+			if old, seen := got[pos]; seen && old != e.i {
+				*bad += fmt.Sprintf("args[%d] decides two modifiers; ", pos)
+			}
+			got[pos] = e.i
+		}
+	}
+}
+
+// checkCornerTrickSparesLockedNeighbour: Show never writes a locked cell: the last-cell workaround writes
+// the corner's content onto the cell to its left and repaints that cell afterwards — through drawCell,
+// which refuses a locked cell.  The workaround must therefore be taken only where the neighbour is known
+// not to be locked (a test by a CellBuffer method that reads the lock flag), or repaint it some other way.
+func checkCornerTrickSparesLockedNeighbour(c *Ctx, p *Prog, rule string) {
+	dc := p.Fn("tcell:(*tScreen).drawCell")
+	lk := p.Fn("tcell:(*CellBuffer).LockCell")
+	if dc == nil || lk == nil {
+		c.Undecided(rule, "drawCell", "-", "drawCell or LockCell not found")
+		return
+	}
+	lockField := ""
+	eachInstr(lk, func(in ssa.Instruction) {
+		if st, ok := in.(*ssa.Store); ok {
+			if ref, _, isF := fieldAddrRef(st.Addr); isF {
+				if v, isB := constBool(st.Val); isB && v {
+					lockField = ref.Owner + "." + ref.Name
+				}
+			}
+		}
+	})
+	readsLock := func(f *ssa.Function) bool {
+		hit := false
+		for _, d := range deepInstrs(p, f, 1, nil) {
+			if u, ok := d.in.(*ssa.UnOp); ok && u.Op == token.MUL {
+				if ref, _, isF := fieldAddrRef(u.X); isF && ref.Owner+"."+ref.Name == lockField {
+					hit = true
+				}
+			}
+		}
+		return hit
+	}
+	var lockTest func(v ssa.Value, depth int) bool
+	lockTest = func(v ssa.Value, depth int) bool {
+		if depth > 3 || v == nil {
+			return false
+		}
+		switch x := v.(type) {
+		case *ssa.Call:
+			h := x.Call.StaticCallee()
+			return h != nil && recvTypeName(h) == "tcell.CellBuffer" && h.Name() != "Dirty" && readsLock(h)
+		case *ssa.UnOp:
+			return lockTest(x.X, depth+1)
+		case *ssa.Phi:
+			for _, e := range x.Edges {
+				if lockTest(e, depth+1) {
+					return true
+				}
+			}
+		}
+		return false
+	}
+	n, bad := 0, ""
+	siteOf := map[*ssa.Function]ssa.Instruction{}
+	var all []deepInstr
+	for _, f := range withClosures(dc) {
+		if f != dc {
+			eachInstr(f.Parent(), func(in ssa.Instruction) {
+				if mc, ok := in.(*ssa.MakeClosure); ok && mc.Fn == ssa.Value(f) {
+					siteOf[f] = in
+				}
+			})
+		}
+		all = append(all, deepInstrs(p, f, 1, nil)...)
+		eachInstr(f, func(in ssa.Instruction) {
+			if df, ok := in.(*ssa.Defer); ok {
+				if h := df.Call.StaticCallee(); h != nil && h.Pkg == p.Tcell && len(h.Blocks) > 0 && h.Parent() == nil {
+					siteOf[h] = in
+					all = append(all, deepInstrs(p, h, 1, nil)...)
+				}
+			}
+		})
+	}
+	for _, d := range all {
+		cc := callCommon(d.in)
+		if cc == nil || !strings.HasSuffix(calleeName(cc), "tScreen).TPuts") || len(cc.Args) < 2 {
+			continue
+		}
+		if ref, _, ok := loadedField(d.bindVal(cc.Args[1])); !ok || ref.Name != "InsertChar" {
+			continue
+		}
+		n++
+		gs := rawGuardsAt(d.anchor.Block())
+		if site := siteOf[d.anchor.Parent()]; site != nil {
+			gs = append(gs, rawGuardsAt(site.Block())...)
+		}
+		spared := false
+		for _, g := range gs {
+			if lockTest(g.Cond, 0) {
+				spared = true
+			}
+		}
+		if !spared {
+			bad += fmt.Sprintf("the workaround at %s is taken whatever the lock of the cell it writes on, and repaints it through drawCell, which refuses a locked cell; ", p.pos(d.in.Pos()))
+		}
+	}
+	if n == 0 {
+		c.Check(true, rule, "drawCell:corner-trick-spares-a-locked-neighbour", p.pos(dc.Pos()), "no emission of InsertChar: the workaround is not there")
+		return
+	}
+	c.Check(bad == "", rule, "drawCell:corner-trick-spares-a-locked-neighbour", p.pos(dc.Pos()), fmt.Sprintf("%d emission(s) of InsertChar %s", n, bad))
 }
